@@ -10,6 +10,7 @@
 // steps (all numbers are run-time values from the case file):
 //   R <n> <s0..>         cur.resize(index array)            -> T | F | V(oid) | U(nsupported by the type)
 //   r <n> <s0..>         cur.resize(s0,s1,..) (variadic)    -> T | F | V | U
+//   q <n> <s0..>         cur.resize(static_vector index array) -> T | F | V | U
 //   F <base>             cur(i...) = base + C-order position, for every index of the reported shape -> n | X (unsafe, skipped)
 //   W <n> <i0..> <v>     cur(i...) = v                      -> OK | X
 //   C                    oth = new A(cur) (copy constructor); swap(cur, oth)
@@ -210,8 +211,16 @@ namespace c20
     void emit_res(vh::Out& out, const R& r) { out.tok(r ? "T" : "F"); }
 
     template <typename A>
-    void do_resize(vh::Out& out, A& a, const std::vector<long long>& s, bool variadic)
+    void do_resize(vh::Out& out, A& a, const std::vector<long long>& s, int form)
     {
+        const bool variadic = form == 1;
+        [[maybe_unused]] auto as_svec = [&]() {
+            nmtools_static_vector<nm_size_t, 4> sv;
+            sv.resize(s.size());
+            for (size_t i = 0; i < s.size(); i++) sv[i] = (nm_size_t)s[i];
+            return sv;
+        };
+        if (form == 2 && s.size() > 4) { out.tok("U"); return; }
         if constexpr (!has_resize<A>()) {
             out.tok("U");
         } else if constexpr (cls_v<A> == HYBRID) {
@@ -236,6 +245,8 @@ namespace c20
                 case 3: a.resize((size_t)s[0], (size_t)s[1], (size_t)s[2]); break;
                 default: out.tok("U"); return;
                 }
+            } else if (form == 2) {
+                a.resize(as_svec());
             } else {
                 a.resize(vh::to_shape(s));
             }
@@ -252,6 +263,8 @@ namespace c20
                 case 3: if constexpr (!tup || D == 3) emit_res(out, a.resize((size_t)s[0], (size_t)s[1], (size_t)s[2])); break;
                 default: out.tok("U"); break;
                 }
+            } else if (form == 2) {
+                emit_res(out, a.resize(as_svec()));
             } else {
                 emit_res(out, a.resize(vh::to_shape(s)));
             }
@@ -417,10 +430,10 @@ namespace c20
             out.tok(op);
             int resized = -1;   // 1 accepted, 0 refused
             std::vector<long long> reqshape;
-            if (op == "R" || op == "r") {
+            if (op == "R" || op == "r" || op == "q") {
                 reqshape = in.vec();
                 auto mark = out.buf.size();
-                do_resize(out, *cur, reqshape, op == "r");
+                do_resize(out, *cur, reqshape, op == "r" ? 1 : (op == "q" ? 2 : 0));
                 auto r = out.buf.substr(mark);
                 if (r == " T" || r == " V") resized = 1;
                 else if (r == " F") resized = 0;
@@ -460,8 +473,8 @@ namespace c20
             // monitor of the driver itself: once the object is no longer self-consistent (or a refused resize has
             // changed it) further operations would only report consequences of that; stop the history here.
             bool halt = !consistent(*cur);
-            if ((op == "R" || op == "r") && resized == 0 && curdump != prevdump) halt = true;
-            if ((op == "R" || op == "r") && resized == 1 && info(*cur).shape != reqshape) halt = true;
+            if (resized == 0 && curdump != prevdump) halt = true;
+            if (resized == 1 && info(*cur).shape != reqshape) halt = true;
             if (halt) { out.tok("HALT"); return; }
             prevdump = curdump;
         }
